@@ -846,21 +846,23 @@ def hyp(ctx, strategy, body, n, seed_offset):
 
 
 def plan(tier, seed):
+    """quick: 18 tasks. thorough: the same populations in shards of <= 1500 examples (a shard that is running when
+    the budget ends still has to let Hypothesis generate its remaining examples; small shards keep that short)."""
     q = tier == "quick"
     tasks = [("enum", {}), ("names", {})]
-    n_clean, n_raw, n_mut, n_rand = (6, 2, 4, 4) if q else (16, 8, 16, 16)
-    per_rt = 800 if q else 9000
-    per_mut = 800 if q else 6000
-    per_rand = 1200 if q else 9000
+    n_clean, n_raw, n_mut, n_rand = (6, 2, 4, 4) if q else (96, 48, 64, 96)
+    per_rt = 800 if q else 1500
+    per_mut = 800 if q else 1500
+    per_rand = 1200 if q else 1500
     for i in range(n_clean):
         tasks.append(("rt", {"mode": "clean", "shard": i, "n": per_rt}))
     for i in range(n_raw):
-        tasks.append(("rt", {"mode": "raw", "shard": 50 + i, "n": per_rt}))
+        tasks.append(("rt", {"mode": "raw", "shard": 1000 + i, "n": per_rt}))
     for i in range(n_mut):
-        tasks.append(("mut", {"shard": 100 + i, "n": per_mut}))
+        tasks.append(("mut", {"shard": 2000 + i, "n": per_mut}))
     for i in range(n_rand):
-        tasks.append(("rand", {"dot": (i % 4 == 3), "shard": 150 + i, "n": per_rand}))
-    if not q:
+        tasks.append(("rand", {"dot": (i % 4 == 3), "shard": 3000 + i, "n": per_rand}))
+    if not q:  # last: the generated populations are the core, the fuzzer takes what is left of the budget
         for i in range(16):
             tasks.append(("fuzz", {"shard": i, "runs": 1000000}))
     return tasks
@@ -1038,9 +1040,10 @@ def _fuzz_task(kw, ctx):
         ctx.count("fuzz:skipped")
         return
     left = ctx.time_left()
-    if left < 60:
+    if left < 90:
         ctx.budget_hit = True
         ctx.note("fz_sml shard not started: budget used up")
+        ctx.count("fuzz:not-started")
         return
     tmp = tempfile.mkdtemp(prefix="vf_c15_fz_")
     try:
@@ -1073,7 +1076,7 @@ def _fuzz_task(kw, ctx):
             f"-dict={os.path.join(tmp, 'dict')}",
             "-print_final_stats=1",
             "-verbosity=0",
-            f"-max_total_time={int(max(30, left - 30))}",
+            f"-max_total_time={int(min(360, left - 45))}",
         ]
         r = subprocess.run(cmd, env=env, capture_output=True, text=True, cwd=tmp)
         stats_path = os.path.join(out, "stats.json")
